@@ -87,7 +87,18 @@ def design_level(c, binp, classes):
     info["reproduced_on_code"] = bool(got)
     classes += got
     c.cov["cache_design"] = info
-    return len(traces)
+    # directed standalone histories: an L2 clear followed by commits that touch several nodes, some of whose handles
+    # are back in L2 and some not (partial hit of registry.Get at commit; found by the random histories, fixed by 73905dbc)
+    n = len(traces)
+    for slot, place, script in ((2, "segment", ["op@w0:Add:7", "clearl2", "op@w0:Upsert:4", "op@w0:Remove:3", "op@w0:Remove:2", "observe@w0"]),
+                                (4, "segment", ["clearl2", "observe@w0", "op@w0:Update:6", "op@w0:Remove:3", "observe@w0"]),
+                                (2, "node", ["op@w0:Add:7", "op@w0:Add:8", "clearl2", "op@w0:Update:5", "op@w0:Remove:1", "op@w0:Remove:4", "observe@w0"])):
+        g = _txncfg.gen(c, "y", MaxTxns=1, MaxOps=1, Keys=6, Slots=[slot], Placements=[place])
+        cfg = _txncfg.cfg(c, "cachedir%d%s" % (slot, place), 1, g, clustered=False, script=script)
+        tr = txnlib.run_driver(c, binp, "cache", cfg, timeout=600)
+        classes += txnlib.validate_skipping(c, tr, "TxnStoreTrace.cfg", classify, chunk=1, max_skips=2)
+        n += len(tr)
+    return n
 
 
 def run(c):
